@@ -1191,6 +1191,51 @@ def rule_adopted_steps(F, R):
     R.floor("R-C02-7", n, 2, "adoption sites in the gradient-sampling line search")
 
 
+def rule_rqb_adoption(F, R):
+    """R-C02-7 (RQB): the bundle solver overwrites the state unconditionally (`state.update(y, gy, fy)`) only on a step status for which the curve
+    search established the decrease (descent_step, cutting_plane_step) - a must-dataflow fact generated on the true edge of
+    `status == csearch_status::<one of them>` for the status of the latest search call. Any other status (max_iters when the budget ran out
+    mid-search, failed, ...) carries a trial point that passed no test."""
+    from ..cfg import must_dataflow
+    n = 0
+    for f in F.functions.values():
+        if f.body is None or f.is_lambda or f.name != "do_minimize" or "rqb" not in (f.cls or ""):
+            continue
+        cfg = f.cfg
+        status_vars = set()
+        for v in f.nodes():
+            if v["k"] == "var" and v.get("bindings") and v.get("c") and any(y["k"] == "call" and callee(y) == "nano::csearch_t::search" for y in walk(v["c"][0])):
+                for b in v["bindings"]:
+                    status_vars.add(b["d"])
+
+        def telem(facts, e):
+            if e.kind == "node" and e.node["k"] == "call" and callee(e.node) == "nano::csearch_t::search":
+                facts.discard("D")
+
+        def tedge(facts, b, k):
+            if b.cond is None or len(b.succ) != 2 or k != 0:
+                return
+            c = skip(b.cond)
+            if c["k"] in ("bin", "call") and c.get("op") == "==":
+                sides = [skip(x_) for x_ in c["c"][-2:]]
+                txt = [pp(x_) for x_ in sides]
+                if any(t_.endswith("csearch_status::" + s_) for t_ in txt for s_ in ("descent_step", "cutting_plane_step")) and \
+                        any(y["k"] == "ref" and y.get("d") in status_vars for x_ in sides for y in walk(x_)):
+                    facts.add("D")
+        IN, before = must_dataflow(cfg, set(), telem, tedge)
+        for e in cfg.elems():
+            if e.kind != "node" or e.node["k"] != "call" or callee(e.node) != "nano::solver_state_t::update" or len(args(e.node)) < 3 or skip(args(e.node)[1])["k"] in ("construct", "defarg"):
+                continue
+            facts = before(e.block, e.pos)
+            if facts is None:
+                continue
+            n += 1
+            R.check("D" in facts, "R-C02-7", "rqb adopt@%d" % e.node["l"], f.loc(e.node), "the state is overwritten only on a descent / cutting-plane step of the latest curve search",
+                    "`%s` is reached on a path on which the status of the latest curve search was not compared equal to descent_step / cutting_plane_step: for any other status "
+                    "(max_iters when the budget runs out inside the search, failed) the trial point passed no decrease test, and the returned value can exceed the starting value" % pp(e.node)[:50])
+    R.floor("R-C02-7/rqb", n, 2, "unconditional state overwrites in RQB")
+
+
 def run(ctx):
     R = ctx.report
     tus = ctx.all_tus() if ctx.thorough else SOLVER_TUS
@@ -1205,3 +1250,4 @@ def run(ctx):
     rule_done_and_status(F, R, fns)
     rule_returned_state(F, R, fns)
     rule_adopted_steps(F, R)
+    rule_rqb_adoption(F, R)
